@@ -662,6 +662,7 @@ func init() {
 						}
 						// every success return of the helper gives the checked value, behind the test
 						okRet, nret := true, 0
+						hRootEmpty := false
 						for _, hb := range h.Blocks {
 							for _, hin := range hb.Instrs {
 								r, isRet := hin.(*ssa.Return)
@@ -670,6 +671,12 @@ func init() {
 								}
 								if k, isK := r.Results[1].(*ssa.Const); !isK || !k.IsNil() {
 									continue // an error return
+								}
+								// a success return reachable only over the helper's own `RootDir == ""` edge is the
+								// unconfined configuration (`if lib.RootDir == "" { return loc, nil }`)
+								if re := rootEmptyEdges(h); len(re) > 0 && !ssaReachableAvoiding(h, hb, re) {
+									hRootEmpty = true
+									continue
 								}
 								nret++
 								if r.Results[0] != hcore.vChecked || ssaReachableAvoiding(h, hb, hcore.cut) {
@@ -689,7 +696,7 @@ func init() {
 							}
 						}
 						cut = append(rootEmptyEdges(fn), errNilEdges(fn, call)...)
-						core.haveRootEmpty = len(rootEmptyEdges(fn)) > 0
+						core.haveRootEmpty = len(rootEmptyEdges(fn)) > 0 || hRootEmpty
 					}
 				}
 			}
